@@ -14,17 +14,22 @@ from harness.core import Atom, Failure, Mismatch, Result, sx
 
 MANIFEST = dict(
     design_ref="DESIGN.md §6 Group N (C20)",
-    text="Coq theorems C20_inotify_roundtrip / C20_win_roundtrip (all record counts, name lengths, paddings; induction, "
-         "no bound) over executable byte-level models of Inotify._parse_event_buffer and winapi._parse_event_buffer; "
-         "C20_win_bom_refuted records defect F8 of the pinned decoder. Windows/FSEvents emitters: executable models of "
-         "the action/flag tables with per-operation contract theorems against documented-semantics OS simulators. "
-         "Models are tied to /repo by running the extracted model and the real functions (through import shims) on "
-         "the same inputs on every run.",
+    text="Codecs: Coq theorems C20_inotify_roundtrip / C20_win_roundtrip (every record count, name length and padding; induction, "
+         "no bound) over byte-level executable models of Inotify._parse_event_buffer and winapi._parse_event_buffer (repaired codec "
+         "utf-16-le; C20_win_bom_refuted records defect F8 of the pinned 'utf-16'). Windows emitter: C20_win_contract - for every "
+         "tree and every operation the real action table, fed the simulator's notifications, queues exactly the per-operation "
+         "contract (one moved event + one synthetic event per descendant via C14, move in/out = created/deleted); "
+         "C20_win_replay_partial - replay reproduces the tree for histories of any length whose renamed/arriving entries are leaves; "
+         "the general replay law is a stated Definition checked by the oracle. FSEvents emitter: C20_fsevents_flat(+_depth) proved "
+         "for every batch; contract/replay for uncoalesced one-operation batches are stated Definitions checked by correspondence "
+         "and oracle; several operations per batch: C20_fsevents_batched_refuted (F12). All models are tied to /repo by running the "
+         "extracted OCaml models and the real functions (imported on Linux through shims) on the same inputs on every run.",
     note="Trusted: Coq kernel; struct 'iIII' = little-endian 4x32 bit on this machine; ctypes reads; CPython's utf-16 codecs "
          "(validated against the model on every run). ReadDirectoryChangesW and FSEvents semantics are modelled from the "
-         "documentation and cannot be validated in this sandbox; os.path is posixpath here (ntpath on Windows).",
+         "documentation and cannot be validated in this sandbox; os.path is posixpath here (ntpath on Windows). Known findings "
+         "F11 (REMOVED always File flavour), F12 (FSEvents rename pairing inside one batch), F13 (rename pair cut across reads).",
     technique="Coq proof (induction over record lists / per-operation case analysis) + differential correspondence via "
-              "extracted OCaml model + implementation-level oracle",
+              "extracted OCaml model + implementation-level oracle on a real scratch directory",
 )
 
 TRUSTED = [
